@@ -658,11 +658,63 @@ func c08Spelling(c *fw.Ctx, i int64) {
 	}
 }
 
+// ---- histories on one calculator: a later-registered namesake of a built-in, removal of an earlier
+// function, setting and evaluating an expression that calls the name: the first registration wins every time
+
+var c08HistCalls = []struct{ name, expr, want string }{
+	{"Array", "Array(7,8,9)[1]", "1:8"},
+	{"Max", "Max(2,9,4)", "1:9"},
+	{"Abs", "Abs(-6) + 1", "1:7"},
+}
+
+var c08HistOps = []string{"add a namesake", "Remove(0)", "Evaluate", "SetExpression", "RemoveByName(Pi)"}
+
+func c08History(c *fw.Ctx, which int, h []int) {
+	call := c08HistCalls[which]
+	calc := calculator.NewExpressionCalculator()
+	set := false
+	hist := []string{}
+	for _, op := range h {
+		hist = append(hist, c08HistOps[op])
+		switch op {
+		case 0:
+			calc.DefaultFunctions().Add(functions.NewDelegatedFunction(call.name, func(p []*variants.Variant, o variants.IVariantOperations) (*variants.Variant, error) {
+				return variants.VariantFromInteger(3), nil
+			}))
+		case 1:
+			if calc.DefaultFunctions().Length() > 0 && calc.DefaultFunctions().Get(0).Name() != call.name {
+				calc.DefaultFunctions().Remove(0)
+			}
+		case 4:
+			calc.DefaultFunctions().RemoveByName("Pi")
+		case 3:
+			if err := calc.SetExpression(call.expr); err != nil {
+				c.Violation("history:SetExpression-fails", "after [%s]: SetExpression(%q) fails: %v", strings.Join(hist, "; "), call.expr, err)
+				return
+			}
+			set = true
+		case 2:
+			if !set {
+				continue
+			}
+			var r *variants.Variant
+			var err error
+			pv := fw.Try(func() { r, err = calc.Evaluate() })
+			c.Eval(1)
+			if pv != nil || err != nil || variantStr(r) != call.want {
+				c.Violation("namesake-wins-after-history:"+call.name, "one calculator, [%s]: %q = %s (error %v, panic %v); the first registered %s gives %s", strings.Join(hist, "; "), call.expr, variantStr(r), err, pv, call.name, call.want)
+				return
+			}
+		}
+	}
+	c.Nontrivial()
+}
+
 func init() {
 	fw.Register(&fw.Check{
 		ID:    "C08",
 		Level: "model_checking",
-		Rule: "all 37 registered functions x every argument list of length 0..3 over a 16-value pool (every variant type) and of length 4..8 over {1,'a',null}, both managers, called directly through FindByName(name).Calculate and (lists of length 0..2 and the arity sweep) through expressions Name(x0,..) in three letter cases; every name in 4 spellings for lookup; " +
+		Rule: "all 37 registered functions x every argument list of length 0..3 over a 16-value pool (every variant type) and of length 4..8 over {1,'a',null}, both managers, called directly through FindByName(name).Calculate and (lists of length 0..2 and the arity sweep) through expressions Name(x0,..) in three letter cases; every name in 4 spellings for lookup; every history of <=5 steps out of {register a namesake, Remove(0), RemoveByName(Pi), SetExpression, Evaluate} on one calculator for three built-ins (the first registration wins every time); Rnd/Random with the process-wide random source scripted to every triple of 15 boundary draws; " +
 			"oracle: reference function table (arity, fixed result type, value via math.*/time.* on the manager-converted argument, selection functions return the selected argument, clock/random inside their intervals), exactly one of result/error, no escaping panic, arguments unchanged; non-trivial = calls whose outcome the table defines",
 		Assume: []string{"argument conversion uses the manager under test (C07)", "TZ=UTC", "Sqr may be square or square root; Date's 7th field may be milli- or nanoseconds; Empty is only pinned for Null and non-empty values; Min/Max on all-numeric mixed-type lists: the numerically true extremum or the result of folding the documented comparison in written order; on other mixed or Null-containing lists: an error or one of the arguments"},
 		Spaces: func(tier string) []fw.Space {
@@ -712,6 +764,17 @@ func init() {
 				}, Repr: func(i int64) string {
 					j := i / 2
 					return fmt.Sprintf("Rnd()/Random() x4 with math/rand's global generator scripted to draw %v", []int64{randomDraws[j%nd], randomDraws[j/nd%nd], randomDraws[j/nd/nd]})
+				}},
+				{Name: "namesake-histories", N: int64(len(c08HistCalls)) * countStrings(len(c08HistOps), 5), Run: func(c *fw.Ctx, i int64) {
+					nh := countStrings(len(c08HistOps), 5)
+					c08History(c, int(i/nh), seqByIndex(len(c08HistOps), i%nh))
+				}, Repr: func(i int64) string {
+					nh := countStrings(len(c08HistOps), 5)
+					p := []string{}
+					for _, k := range seqByIndex(len(c08HistOps), i%nh) {
+						p = append(p, c08HistOps[k])
+					}
+					return fmt.Sprintf("one calculator, expression %q: %s", c08HistCalls[i/nh].expr, strings.Join(p, "; "))
 				}},
 				{Name: "spelling", N: nf * 4, Run: c08Spelling, Repr: func(i int64) string { return fmt.Sprintf("lookup of %s in spelling %d", c08Names[int(i)/4], i%4) }},
 				{Name: "direct-short", N: short * nf * 2, Run: func(c *fw.Ctx, i int64) {
